@@ -18,14 +18,6 @@
 */
 #include "cache_common.h"
 
-static errcode_t flush_cached_blocks(io_channel channel, struct unix_private_data *data, int flags)
-	REQUIRES(coherent(data) && channel->write_error == 0 && !(data->flags & IO_FLAG_THREADS))
-	ENSURES(coherent(data))
-	ENSURES(RET != 0 || (!any_dirty(data) && g_disk == g_logical))
-	ENSURES(RET != 0 || !(flags & FLUSH_INVALIDATE) || !any_inuse(data))
-	ENSURES(RET == 0 || g_nwrites > 0)
-	ASSIGNS(__CPROVER_object_whole(data), g_disk, g_nwrites);
-
 void h_flush(void)
 {
 	build_channel();
